@@ -12,8 +12,11 @@ import (
 	"io"
 	"math/rand"
 	"os"
+	"runtime"
 	"sort"
 	"strconv"
+	"sync"
+	"sync/atomic"
 
 	"github.com/kubeshark/base/pkg/extensions"
 	"github.com/kubeshark/base/pkg/languages/kfl"
@@ -55,6 +58,30 @@ func main() {
 	default:
 		os.Exit(2)
 	}
+}
+
+// parallel runs f(0..n-1) on a pool of workers (index i is only touched by its own call).
+func parallel(n int, f func(i int)) {
+	workers := runtime.NumCPU()
+	if workers > 8 {
+		workers = 8
+	}
+	var wg sync.WaitGroup
+	next := int64(-1)
+	for w := 0; w < workers; w++ {
+		wg.Add(1)
+		go func() {
+			defer wg.Done()
+			for {
+				i := int(atomic.AddInt64(&next, 1))
+				if i >= n {
+					return
+				}
+				f(i)
+			}
+		}()
+	}
+	wg.Wait()
 }
 
 func dumpMacros() {
@@ -156,12 +183,21 @@ func expand(args []string) {
 		for _, k := range order {
 			kfl.AddMacro(table[k].Name, table[k].Def)
 		}
-		for i, q := range queries {
+		parallel(len(queries), func(i int) {
 			for r := 0; r < reps; r++ {
-				outs[i][run(i, q)] = true
+				outs[i][run(i, queries[i])] = true
+			}
+		})
+	}
+	reouts := make([]map[string]bool, len(queries))
+	parallel(len(queries), func(i int) {
+		reouts[i] = map[string]bool{}
+		for o := range outs[i] {
+			for r := 0; r < reps; r++ {
+				reouts[i][run(i, o)] = true
 			}
 		}
-	}
+	})
 	w := bufio.NewWriterSize(os.Stdout, 1<<20)
 	defer w.Flush()
 	for i, q := range queries {
@@ -169,13 +205,7 @@ func expand(args []string) {
 			res[i].Outs = append(res[i].Outs, o)
 		}
 		sort.Strings(res[i].Outs)
-		re := map[string]bool{}
-		for _, o := range res[i].Outs {
-			for r := 0; r < reps; r++ {
-				re[run(i, o)] = true
-			}
-		}
-		for o := range re {
+		for o := range reouts[i] {
 			res[i].Re = append(res[i].Re, o)
 		}
 		sort.Strings(res[i].Re)
